@@ -382,7 +382,7 @@ func c10Apply(st c10State, m c10Model, o c10Op) (ns c10State, nm c10Model, key, 
 				err = fmt.Errorf("invalid scalar encoding %x accepted", c10BadScalar()[o.k])
 			}
 
-			nm.s[o.i] = ref.OS2IP(r.Encode()) // re-sync: the value after a rejected decode is not specified
+			nm.s[o.i] = ref.Unmont(r.S, ref.N) // re-sync from the stored limbs: the value after a rejected decode is not specified
 		default:
 			panic("unknown scalar op " + o.name)
 		}
